@@ -55,7 +55,7 @@ pub fn check(tier: Tier) -> Check {
         also_rel: false,
         property: "C13",
         level: "model_checking",
-        rule: "connect()/authorize(): CONNACK with each of the 22 reasons x property sets, AUTH challenge and continuation, end-of-stream at every byte offset of the CONNACK, read and write errors; run(): every terminating cause (user DISCONNECT, server DISCONNECT, EOF, read error, write error, last handle dropped, undecodable packet) injected at every point of every bounded history of operations (idle, operations outstanding, streams open, mid-QoS 2), followed by further operations; flat sweeps over all 29 DISCONNECT reasons x property sets (the user's DISCONNECT also under a Maximum Packet Size that refuses it: run() must then keep serving); non-trivial = run()/connect() returned".into(),
+        rule: "connect()/authorize(): CONNACK with each of the 22 reasons x property sets, AUTH challenge and continuation, end-of-stream at every byte offset of the CONNACK, read and write errors; run(): every terminating cause (user DISCONNECT, server DISCONNECT, EOF, read error, write error, last handle dropped, undecodable packet) injected at every point of every bounded history of operations (idle, operations outstanding, streams open, mid-QoS 2), followed by further operations; flat sweeps over all 29 DISCONNECT reasons x property sets (the user's DISCONNECT also under a Maximum Packet Size that refuses it: run() must then keep serving); connect() on the second connection of a Context whose first one ended by the user's DISCONNECT inside an inbound packet; server DISCONNECT sweeps under Request Problem Information unset / 1 / 0 and CONNACKs with reason string and user property; poll_close answering Ok / Err / Pending; value flavour; non-trivial = run()/connect() returned".into(),
         assumptions: vec![
             "which error is returned for undecodable input is unconstrained".into(),
             "the context task drops the Context right after run() returned".into(),
